@@ -275,6 +275,10 @@ class Online:
     if sig_names is None or (sig_names != code_names and sig_names != code_names[1:]):
       self.count('inject_skipped_signature_not_that_of_callee')
       return
+    if sig_names != code_names and (inspect.ismethod(fn) or not (inspect.isfunction(fn) or inspect.isclass(fn))):
+      # a bound method / callable object: its first parameter is bound, the caller's positional arguments start at the second one
+      pos_names = pos_names[1:]
+      npos -= 1
     received = {n: loc[n] for n in names if n in loc}
     extra_kw = dict(loc.get(varkw_name, {})) if has_varkw else {}
     extra_pos = tuple(loc.get(varargs_name, ())) if has_varargs else ()
